@@ -28,7 +28,7 @@ class Case:
 
 
 def run_cases(pair, cases, workers=8, want_read=True, want_parse=True, want_model_write=True):
-    par = lambda f, lines, chunk=400: common.chunked_parallel(f, lines, workers=workers, chunk=chunk)
+    par = lambda f, lines, chunk=max(1, min(400, len(cases) // (2 * workers) + 1)): common.chunked_parallel(f, lines, workers=workers, chunk=chunk)
     # 1. implementation writes
     res = par(pair.impl, ["zoo-write %s %d %d %s" % (c.zoo.name, c.max, c.codec, c.go_ops) for c in cases])
     for c, r in zip(cases, res):
